@@ -90,6 +90,7 @@ def validate(c, path, flags, name, chunks=4):
     """TLC validates the recorded histories against LockTrace.tla; on a rejection the offending
     history is reported and removed, and the rest is validated again."""
     blocks = split_blocks(path)
+    c.lock_flags = flags
     if not blocks:
         return
     cfg = c.write_cfg("lock", "LockTrace_" + name, constants=flags, postcondition="Accepted")
@@ -162,4 +163,5 @@ def report(c, block, idx):
         sig = "lock: Unlock panicked for a holder"
     else:
         sig = "lock: event %s not allowed by the contract" % e
-    c.report_failure(sig, {"rejected_event": ev, "history": block[:idx + 2]})
+    c.report_failure(sig, {"rejected_event": ev, "history": block[:idx + 2],
+                           "trace": {"comp": "lock", "module": "LockTrace", "constants": getattr(c, "lock_flags", None)}})
